@@ -9,13 +9,111 @@ package main
 import (
 	"fmt"
 	"os"
+	"strings"
 	"sync"
 
 	"github.com/runreveal/pql"
 	"github.com/runreveal/pql/parser"
+	"verif/harness/gen"
 )
 
+// determinism: every source of the grammar corpus (and long pipelines with two planted faults, so that "which
+// error is reported" is observable) is compiled repeatedly, by the main goroutine and by several goroutines
+// at once; all results for one source must be equal. Free-running: it samples timings, and any difference it
+// sees is a real violation of "the same source gives the same result".
+func determinism() {
+	var srcs []string
+	for _, p := range gen.Programs() {
+		pr := gen.Print(p)
+		srcs = append(srcs, pr.Layout(pr.Uniform(" ")).Source)
+	}
+	faults := []string{"where not(a, b)", "extend z = isnull()", "where $left.a == 1", "take 1.5", "join kind=bogus (R) on k", "summarize countif() by b"}
+	for _, k := range []int{3, 8, 13, 20, 40} {
+		for i := 0; i < k; i += 1 + k/5 {
+			for j := i + 1; j < k; j += 1 + k/4 {
+				var ops []string
+				for s := 0; s < k; s++ {
+					switch {
+					case s == i:
+						ops = append(ops, faults[(i+k)%len(faults)])
+					case s == j:
+						ops = append(ops, faults[(j+k+1)%len(faults)])
+					default:
+						ops = append(ops, []string{"where a > 1", "project a, b", "extend c = a + 1", "sort by a", "summarize a = max(a), b = max(b) by c", "project a, b, c"}[s%6])
+					}
+				}
+				srcs = append(srcs, "T | "+strings.Join(ops, " | "))
+			}
+		}
+	}
+	opts := &pql.CompileOptions{Parameters: map[string]string{"n": "{n:Int32}"}}
+	call := func(s string, mode int) string {
+		var sql string
+		var err error
+		if mode%2 == 0 {
+			sql, err = pql.Compile(s)
+		} else {
+			sql, err = opts.Compile(s)
+		}
+		return fmt.Sprint(sql, "|", err)
+	}
+	for _, s := range srcs {
+		first := [2]string{call(s, 0), call(s, 1)}
+		for rep := 0; rep < 10; rep++ {
+			for mode := 0; mode < 2; mode++ {
+				if got := call(s, mode); got != first[mode] {
+					fmt.Printf("MISMATCH the same call gives different results: source %q\n  first:  %s\n  call %d: %s\n", s, first[mode], rep+2, got)
+					os.Exit(5)
+				}
+			}
+		}
+		var wg sync.WaitGroup
+		bad := make(chan string, 8)
+		for g := 0; g < 4; g++ {
+			g := g
+			wg.Add(1)
+			go func() {
+				defer wg.Done()
+				for rep := 0; rep < 3; rep++ {
+					if got := call(s, g); got != first[g%2] {
+						select {
+						case bad <- got:
+						default:
+						}
+					}
+				}
+			}()
+		}
+		wg.Wait()
+		select {
+		case got := <-bad:
+			fmt.Printf("MISMATCH the same call gives different results under concurrency: source %q\n  alone:      %s\n  concurrent: %s\n", s, first[0], got)
+			os.Exit(5)
+		default:
+		}
+	}
+}
+
+func walkText(s string) string {
+	st, _ := parser.Parse(s)
+	var sb strings.Builder
+	for _, x := range st {
+		parser.Walk(x, func(n parser.Node) bool {
+			fmt.Fprintf(&sb, "%T%v ", n, n.Span())
+			if j, ok := n.(*parser.JoinOperator); ok && j.Right != nil {
+				parser.Walk(j.Right, func(m parser.Node) bool { fmt.Fprintf(&sb, "<%T%v> ", m, m.Span()); return true })
+				return false
+			}
+			return true
+		})
+	}
+	return sb.String()
+}
+
 func main() {
+	if len(os.Args) > 1 && os.Args[1] == "det" {
+		determinism()
+	}
 	shared := &pql.CompileOptions{Parameters: map[string]string{"p": "{p:Int32}"}}
 	srcs := []string{
 		"T | where not(a) and isnull(b)",
@@ -24,7 +122,14 @@ func main() {
 		"let p = 5; T | where a == p",
 		"T | where tolower(a) == p | take 2",
 		"T | summarize n = count(), m = countif(a > 1) by b | top 3 by n",
+		"L | where x > 1 | join kind=inner (R | where y > 0) on k, $left.x < $right.y | project x, y",
+		"A | join (B | join kind=leftouter (C) on $left.b == $right.c) on $left.a == $right.b | count",
 	}
+	walkWant := make([]string, len(srcs))
+	for i, s := range srcs {
+		walkWant[i] = walkText(s)
+	}
+	walkBad := make(chan string, 8)
 	want := make([]string, len(srcs))
 	var wg sync.WaitGroup
 	results := make([][]string, 8)
@@ -46,6 +151,12 @@ func main() {
 				default:
 					parser.Parse(s)
 					parser.Scan(s)
+					if got := walkText(s); got != walkWant[i] {
+						select {
+						case walkBad <- fmt.Sprintf("MISMATCH Walk of %q under concurrency: %s vs %s", s, got, walkWant[i]):
+						default:
+						}
+					}
 					sql, err = (&pql.CompileOptions{Parameters: map[string]string{"p": "{p:Int32}"}}).Compile(s)
 				}
 				results[g] = append(results[g], fmt.Sprint(sql, err))
@@ -54,6 +165,12 @@ func main() {
 	}
 	close(start)
 	wg.Wait()
+	select {
+	case m := <-walkBad:
+		fmt.Println(m)
+		os.Exit(5)
+	default:
+	}
 	// plain Compile and Compile with p bound differ for sources using p; compare like with like
 	for i, s := range srcs {
 		a, ea := pql.Compile(s)
